@@ -120,7 +120,7 @@ package scheduler
 //@             len(bq.platformQueues) == old(len(bq.platformQueues)) + 1 &&
 //@             bq.platformQueues[old(len(bq.platformQueues))] == r0 && *(&r0.platformKey) == platformKey
 //@ func (*sizeClassQueue).remove
-//@   props C05 C01
+//@   props C05 C01 C06
 //@   ensures exactly-the-removed-queue-leaves-the-list:
 //@             len(pq.sizeClassQueues) == old(len(pq.sizeClassQueues)) - 1 && len(pq.sizeClasses) == old(len(pq.sizeClasses)) - 1
 //@   ensures the-queue-after-the-removed-one-moves-into-its-slot:
@@ -185,7 +185,7 @@ package scheduler
 //@   ensures forall p *cleanupKey :: (old(*p) == key ==> *p == 0) && (old(*p) != key && old(*p) != 0 ==> *p != 0) && (old(*p) == 0 ==> *p == 0)
 
 //@ func (*InMemoryBuildQueue).Synchronize
-//@   props C06
+//@   props C06 C02
 //@   at call remove#2 ghostset disarmed[w] = 1
 //@   ensures a-disarmed-worker-is-always-rearmed: w != nil && disarmed(w) == 1 ==> w.cleanupKey != 0
 //@   ensures deadline-counts-from-the-end-of-the-call: w != nil && disarmed(w) == 1 ==>
@@ -236,7 +236,7 @@ package scheduler
 // Waiters get the task's result, and an operation somebody waits on is not
 // collected as abandoned (C02)
 //@ func (*operation).waitExecution
-//@   props C02
+//@   props C02 C03
 //@   assume o.waiters < 1000000000 -- an operation does not have 2^64 concurrent waiters
 //@   loop 0 invariant o.cleanupKey == 0 && o.waiters >= 1 && o == old(o) && bq == old(bq)
 //@   at call leave#1 assert waited-on-operations-are-not-collected: o.cleanupKey == 0 && o.waiters >= 1
@@ -354,3 +354,11 @@ package scheduler
 //@   props C05
 //@   ensures parked-workers-are-woken-whenever-a-drain-is-removed: closed(old(scq.undrainWakeup)) && scq.undrainWakeup != old(scq.undrainWakeup) && !closed(scq.undrainWakeup)
 //@   ensures the-drain-is-gone: !(drainKey in scq.drains)
+
+// Killing operations goes through the same lock discipline as every other
+// entry point: on every path, including the retry after the operation changed
+// while the authorizer ran, the scheduler lock is released (the lock-balance
+// obligations of this function count for C02: a leaked scheduler lock means
+// that no waiter ever gets its final message).
+//@ func (*InMemoryBuildQueue).KillOperations
+//@   props C02 C06
